@@ -113,6 +113,8 @@ impl Sampler for Multinomial {
 /// or sums to less than 1.
 fn multinomial(rng: &mut fastrand::Rng, probs: &[f32]) -> Option<usize> {
     let target = rng.f32();
+    #[cfg(rten_verif)]
+    let target = verif::forced_target().unwrap_or(target);
 
     let mut cum_prob = 0.;
     for (idx, &prob) in probs.iter().enumerate() {
@@ -123,6 +125,28 @@ fn multinomial(rng: &mut fastrand::Rng, probs: &[f32]) -> Option<usize> {
     }
 
     None
+}
+
+/// Verification hooks (used by the checkers in /verif). Not part of the API.
+///
+/// Lets a harness script the uniform draw used by multinomial sampling, so that
+/// the sampler's only source of randomness is an enumerated environment answer.
+#[cfg(rten_verif)]
+pub mod verif {
+    use std::cell::Cell;
+
+    thread_local! {
+        static FORCED_TARGET: Cell<Option<f32>> = const { Cell::new(None) };
+    }
+
+    /// Force the uniform draw used by the next multinomial samples on this thread.
+    pub fn force_target(target: Option<f32>) {
+        FORCED_TARGET.with(|t| t.set(target));
+    }
+
+    pub fn forced_target() -> Option<f32> {
+        FORCED_TARGET.with(|t| t.get())
+    }
 }
 
 #[cfg(test)]
